@@ -63,7 +63,13 @@ class H(W.Hooks):
 
     def start(self, run):
         from job_shop_lib.dispatching import HistoryObserver
-        self.hist_obs = HistoryObserver(run.d)
+        if self.case.get("seed", 0) % 4 == 0 and len(run.ops) <= 40:
+            # every built-in observer attached: observers read the dispatcher's bookkeeping, the
+            # bookkeeping must still be the one implied by the schedule
+            from . import _snap
+            _snap.full_observer_set(run.d)
+            self.ctx.count("histories_with_all_observers_attached")
+        self.hist_obs = run.d.create_or_get_observer(HistoryObserver)
 
     def refused_add_changed_schedule(self, run, accepted, n_before):
         self.ctx.violation("c02_refused_schedule_add_changed_the_bookkeeping",
